@@ -67,8 +67,97 @@ def same(a, b):
     return True
 
 
+def perturb_in_place(x, depth=0):
+    """change the CONTENTS of every float array / tensor / list of floats reachable from x without replacing any object and, for tensors, without
+    bumping the autograd version counter (`.data`): what a caller does who updates a buffer it owns.  returns the number of objects changed"""
+    n = 0
+    if depth > 3:
+        return 0
+    if isinstance(x, torch.Tensor):
+        if x.numel() and (x.is_floating_point() or x.is_complex()) and not x.requires_grad:
+            try:
+                x.data.mul_(1.0009765625)          # 1 + 2^-10: exact in binary, keeps signs, zeros and unit-free structure
+                n += 1
+            except Exception:
+                pass
+    elif isinstance(x, np.ndarray):
+        if x.size and x.dtype.kind in 'fc' and x.flags.writeable:
+            x *= 1.0009765625
+            n += 1
+    elif isinstance(x, list):
+        for i, e in enumerate(x):
+            if isinstance(e, float):
+                x[i] = e * 1.0009765625
+                n += 1
+            else:
+                n += perturb_in_place(e, depth + 1)
+    elif isinstance(x, tuple):
+        for e in x:
+            n += perturb_in_place(e, depth + 1)
+    elif isinstance(x, dict):
+        for e in x.values():
+            n += perturb_in_place(e, depth + 1)
+    return n
+
+
+def restore_in_place(x, saved, depth=0):
+    """put the saved contents back into the very same objects (undo of perturb_in_place)"""
+    if depth > 3:
+        return
+    if isinstance(x, torch.Tensor) and isinstance(saved, torch.Tensor):
+        if x.numel() and (x.is_floating_point() or x.is_complex()) and not x.requires_grad:
+            try:
+                x.data.copy_(saved)
+            except Exception:
+                pass
+    elif isinstance(x, np.ndarray) and isinstance(saved, np.ndarray):
+        if x.size and x.dtype.kind in 'fc' and x.flags.writeable:
+            x[...] = saved
+    elif isinstance(x, list) and isinstance(saved, list) and len(x) == len(saved):
+        for i, e in enumerate(x):
+            if isinstance(e, float):
+                x[i] = saved[i]
+            else:
+                restore_in_place(e, saved[i], depth + 1)
+    elif isinstance(x, tuple) and isinstance(saved, tuple):
+        for e, sv in zip(x, saved):
+            restore_in_place(e, sv, depth + 1)
+    elif isinstance(x, dict) and isinstance(saved, dict):
+        for k_ in x:
+            if k_ in saved:
+                restore_in_place(x[k_], saved[k_], depth + 1)
+
+
+def fresh_copy(x, depth=0):
+    """new objects with the same values"""
+    if depth > 4:
+        return x
+    if isinstance(x, torch.Tensor):
+        return x.detach().clone().requires_grad_(x.requires_grad) if (x.is_floating_point() or x.is_complex()) else x.detach().clone()
+    if isinstance(x, np.ndarray):
+        return x.copy()
+    if isinstance(x, list):
+        return [fresh_copy(e, depth + 1) for e in x]
+    if isinstance(x, tuple):
+        return tuple(fresh_copy(e, depth + 1) for e in x)
+    if isinstance(x, dict):
+        return {k: fresh_copy(v, depth + 1) for k, v in x.items()}
+    return x
+
+
+def _seed():
+    import random as _r
+    torch.manual_seed(4321)
+    np.random.seed(4321)
+    _r.seed(4321)
+
+
 class Probe:
     def __init__(self):
+        self.identity = False            # values-not-identity probe (see wrap): switched on for the targeted calls only
+        self.identity_calls = {}
+        self.identity_dependent = {}     # qual -> description
+        self.result_changed_later = {}   # qual -> description
         self.calls = {}
         self.mutated = {}        # (qual, param) -> example description
         self.default_mutated = {}
@@ -98,6 +187,9 @@ class Probe:
             d0 = snap(list(fn.__defaults__)) if fn.__defaults__ else None
             probe.depth += 1
             try:
+                if probe.identity and probe.depth == 1 and probe.identity_calls.get(qual, 0) < 2:
+                    probe.identity_calls[qual] = probe.identity_calls.get(qual, 0) + 1
+                    return probe.identity_probe(fn, qual, args, kwargs)
                 return fn(*args, **kwargs)
             finally:
                 probe.depth -= 1
@@ -116,6 +208,38 @@ class Probe:
                         pass
         wrapper.__odak_probe__ = True
         return wrapper
+
+    def identity_probe(self, fn, qual, args, kwargs):
+        """the result of a call is a function of the VALUES of its arguments: after the caller has changed the contents of the very same argument
+        objects (in place, `.data` for tensors, so no version counter moves), a call with those objects must return what a call with fresh objects of
+        equal values returns; and a value returned earlier must not be changed by a later call.  Random functions are seeded identically."""
+        _seed()
+        r1 = fn(*args, **kwargs)
+        saved_a, saved_k = fresh_copy(args), fresh_copy(kwargs)
+        keep = r1
+        try:
+            if perturb_in_place(args) + perturb_in_place(kwargs) == 0:
+                return r1
+            keep_snap = snap(keep)          # taken AFTER the update of the arguments: a result that is a view of an argument has followed it already
+            f_args, f_kwargs = fresh_copy(args), fresh_copy(kwargs)
+            _seed()
+            r_same = snap(fn(*args, **kwargs))
+            _seed()
+            r_fresh = snap(fn(*f_args, **f_kwargs))
+            if not same(r_same, r_fresh):
+                _seed()
+                r_fresh2 = snap(fn(*fresh_copy(f_args), **fresh_copy(f_kwargs)))
+                if same(r_fresh, r_fresh2):          # deterministic, so the difference is the identity / history of the argument objects
+                    self.identity_dependent.setdefault(qual, 'after the contents of the argument objects were updated in place, the call returns something '
+                                                             'else than for fresh objects holding the same values')
+            if not same(keep_snap, snap(keep)):
+                self.result_changed_later.setdefault(qual, 'the value returned by an earlier call was changed by a later call')
+        except Exception:
+            pass
+        finally:
+            restore_in_place(args, saved_a)          # the caller's objects get their contents back
+            restore_in_place(kwargs, saved_k)
+        return r1
 
     def install(self):
         import odak  # noqa
